@@ -1,7 +1,7 @@
 (* C20, part A: the fallback decision of tick_leader, hasQuorum. *)
 From Coq Require Import ZArith NArith List Bool Lia ZifyBool ZifyN.
 From RecordUpdate Require Import RecordSet.
-From PSO Require Import Raft.Types Raft.Node Raft.Net Raft.Obs.
+From PSO Require Import Raft.Types Raft.Node Raft.Net.
 Import ListNotations.
 Import RecordSetNotations.
 Open Scope N_scope.
@@ -35,7 +35,7 @@ Definition fallback_phase (e : env) (s : S) : S :=
        else s.
 
 Definition commit_phase (s : S) : S * N :=
-  commit_loop (Datatypes.S (length (log (nd s)))) (commit (nd s)) (commit (nd s)) s.
+  commit_loop (Datatypes.S (N.to_nat (last_idx (log (nd s)) - commit (nd s)))) (commit (nd s)) (commit (nd s)) s.
 
 Definition store_commit (nc : N) (s : S) : S :=
   if commit (nd s) =? nc then s else upd (fun n => set_commit_meta (n <| commit := nc |>)) s.
